@@ -7,7 +7,7 @@ from ..harness import coq, impl, scn
 
 pid = 'C11'
 gen_modules = ['tr_pin_inherit', 'tr_pin_contracts', 'tr_contracts', 'tr_rest_decorators', 'tr_rest_contractsconst']
-model_targets = ['Sem/ClassModel.v', 'Sem/ScnInherit.v', 'Thm/C11/HeapCheck.v']
+model_targets = ['Sem/ClassModel.v', 'Sem/ScnInherit.v', 'Thm/C11/HeapClosed.v']
 hand_modelled = ['coq/Py/Mro.v (C3 linearisation, validated against CPython here)', 'coq/Sem/ClassModel.v: Inherit._patch on a class table (hand-written; source pinned)',
                  'coq/Sem/InheritHeap.v: Contracts.wrap, Inherit.wrap / __get__ / _patch on the heap of shared registries, patchers and class dictionaries (hand-written; source pinned; '
                  'compared with the Contracts objects of the implementation on every scenario)']
@@ -232,7 +232,7 @@ def run_heap(ctx, fr, model_available):
     res = impl.run_impl('c11_heap.py', cases)
     mo = None
     if model_available:
-        text = ('From Coq Require Import List String.\nImport ListNotations.\nFrom Deal Require Import Base Show Mro Interp ObjModel InheritHeap ScnInherit HeapCheck.\nOpen Scope string_scope.\n'
+        text = ('From Coq Require Import List String.\nImport ListNotations.\nFrom Deal Require Import Base Show Mro Interp ObjModel InheritHeap ScnInherit HeapCheck HeapClosed.\nOpen Scope string_scope.\n'
                 'Eval vm_compute in lines [\n ' + ';\n '.join(coq_heap_case(c) for c in cases) + '\n].\n')
         ok, outp = coq.eval_cases('C11heap', text)
         strs = coq.parse_strings(outp) if ok else []
